@@ -111,7 +111,7 @@ def run(tier):
                     if fld.endswith("_fn"):
                         stored.setdefault(fp, []).append((p, adt, fld, targs))
     ck.floor("functions stored into *_fn slots", len(stored), 6)
-    ck.floor("owner values constructed", check_slot_travel(ck, mine), 11)
+    ck.floor("owner values constructed", check_slot_travel(ck, mine), 7)
     for fp, uses in sorted(stored.items()):
         sf = fns.get(fp)
         if not ck.require(sf is not None, "stored function %s" % fp):
